@@ -220,7 +220,7 @@ def main(argv: list[str] | None = None) -> int:
         "rule": getattr(mod, "RULE", ""),
         "samples": m["samples"][:4] or [{"note": "no sample recorded"}],
         "monitor_counters": counters,
-        "observed_sets": {k: sorted(v)[:60] for k, v in m["sets"].items()},
+        "observed_sets": {k: sorted(v)[:400] for k, v in m["sets"].items()},
         "observed_set_sizes": {k: len(v) for k, v in m["sets"].items()},
         "known_findings_observed": {k: len(v) for k, v in known.items()},
         "signature_counts_uncapped": dict(sorted(m["sigcounts"].items())),
